@@ -5,8 +5,8 @@
    pdb, xcfg and cif are covered at correspondence level only (see design.d/C04.md). *)
 From Coq Require Import List Bool Arith NArith ZArith String.
 From DS Require Import Base.C04_Text Base.C04_Decimal Model.C04_Fmt Gen.C04_FmtSpecs.
-From DS Require Import Model.C04_Xyz Model.C04_Rawxyz Model.C04_Pdffit Model.C04_Discus Model.C04_Cols Model.C04_Pdb.
-From DS Require Import Proofs.C04_Fmt Proofs.C04_GenIdem Proofs.C04_NoDrift Proofs.C04_Xyz Proofs.C04_Rawxyz Proofs.C04_Pdffit Proofs.C04_Discus Proofs.C04_Cols Proofs.C04_Pdb
+From DS Require Import Model.C04_Xyz Model.C04_Rawxyz Model.C04_Pdffit Model.C04_Discus Model.C04_Cols Model.C04_Pdb Model.C04_Xcfg Model.C04_Cif.
+From DS Require Import Proofs.C04_Fmt Proofs.C04_GenIdem Proofs.C04_NoDrift Proofs.C04_Xyz Proofs.C04_Rawxyz Proofs.C04_Pdffit Proofs.C04_Discus Proofs.C04_Cols Proofs.C04_Pdb Proofs.C04_Xcfg Proofs.C04_Cif
                        Proofs.C04_Examples.
 Import ListNotations.
 
@@ -144,3 +144,33 @@ Proof. exact no_drift_pdb. Qed.
 Print Assumptions C04_no_drift_pdb.
 Theorem C04_pdb_hypotheses_satisfiable : repr_pdb ex_bstru = true.
 Proof. exact repr_pdb_example. Qed.
+
+(* xcfg - PARTIAL: the entry record (reduced position and auxiliary columns, "%.8g" joined by one blank) reads back as the
+   values at 8 significant digits; `" ".join` / split keep blank-free tokens.  The whole-file statement is not proved: the
+   executable file-level model (header, choice of auxiliary columns, mass/element/entry lines, reader) is tied to the
+   implementation by correspondence only. *)
+Theorem C04_split_join_blank : forall toks, Forall (fun t => no_ws t = true /\ t <> []) toks -> split_ws (join [sp] toks) = toks.
+Proof. exact split_join_sp. Qed.
+Theorem C04_roundtrip_xcfg_entry_partial : forall cols a l, entry_line cols a = Some l ->
+  map_opt parse_float (split_ws l) = Some (let '(x, y, z) := c_pos a in map g8 ([x; y; z] ++ map (fun c => snd c a) cols)).
+Proof. exact roundtrip_xcfg_entry_partial. Qed.
+Print Assumptions C04_roundtrip_xcfg_entry_partial.
+
+(* cif - PARTIAL: each record of the CIF writer reads back through the setters of the CIF reader (cell record; atom_site row:
+   label, capitalised element, position at 6 decimals reduced into the cell, Uiso at 6 decimals, adp type, occupancy at 4;
+   aniso row at 6 decimals).  The composition through the layout tokenizer for whole files is not proved: it is compared with
+   PyCifRW's tokenisation and with readStr on every generated text. *)
+Theorem C04_roundtrip_cif_cell_record_partial : forall k v l, str_tok_ok k = true -> render cif_w_cell [AStr k; ANum v] = Some l ->
+  exists b, split_ws l = [k; b] /\ parse_float b = gq (gprec cif_w_cell 0) v /\ gq (gprec cif_w_cell 0) v <> None.
+Proof. exact roundtrip_cif_cell_record_partial. Qed.
+Theorem C04_roundtrip_cif_atom_row_partial : forall lab a l, str_tok_ok lab = true -> str_tok_ok (f_el a) = true -> atom_row lab a = Some l ->
+  site_atom site_cols (split_ws l) =
+  Some (GAtom lab (capitalize (f_el a)) (let '(x, y, z) := q3 cif_w_atom 0 (f_xyz a) in (in_cell x, in_cell y, in_cell z))
+              (dq (fprec cif_w_atom 3) (f_uiso a)) (f_aniso a) (dq (fprec cif_w_atom 4) (f_occ a)) []).
+Proof. exact roundtrip_cif_atom_row_partial. Qed.
+Print Assumptions C04_roundtrip_cif_atom_row_partial.
+Theorem C04_roundtrip_cif_aniso_row_partial : forall lab a l r, str_tok_ok lab = true -> aniso_row lab a = Some l -> g_label r = lab ->
+  set_aniso aniso_cols (split_ws l) [r] =
+  Some [GAtom (g_label r) (g_el r) (g_xyz r) (g_uiso r) (g_aniso r) (g_occ r)
+              (let '((u1, u2, u3), (u4, u5, u6)) := q6 cif_w_aniso (f_u a) in [u1; u2; u3; u4; u5; u6])].
+Proof. exact roundtrip_cif_aniso_row_partial. Qed.
